@@ -105,7 +105,12 @@ class PycodeSerializer:
         elif self.context.class_type.is_model(obj):
             yield from self.repr_model(obj, level, types)
         elif isinstance(obj, Enum):
-            yield f"{obj.__class__.__qualname__}.{obj.name}"
+            clazz = obj.__class__
+            if obj.name is not None and obj.name in clazz.__members__:
+                yield f"{clazz.__qualname__}.{obj.name}"
+            else:
+                # Flag combinations without a member name, e.g. P.R|P.W or P(0)
+                yield f"{clazz.__qualname__}({literal_value(obj.value)})"
         else:
             yield literal_value(obj)
 
